@@ -395,30 +395,50 @@ func (t *terminal) handleCmdCSI(r escapeReader) bool {
 	if prefix == 0 {
 		switch b {
 		case 'A': // Move cursor up
-			if paramCount == 0 {
+			// an omitted distance is 1, also when it is omitted in front of a
+			// ';' (stored as 0) or given as 0 ("a parameter value of zero or
+			// one moves one position")
+			if paramCount == 0 || params[0] == 0 {
 				paramStore[0] = 1
-				paramCount = 1
+				if paramCount == 0 {
+					paramCount = 1
+				}
 				params = paramStore[:paramCount]
 			}
 			t.screen().moveCursor(0, -params[0], false, false)
 		case 'B': // Move cursor down
-			if paramCount == 0 {
+			// an omitted distance is 1, also when it is omitted in front of a
+			// ';' (stored as 0) or given as 0 ("a parameter value of zero or
+			// one moves one position")
+			if paramCount == 0 || params[0] == 0 {
 				paramStore[0] = 1
-				paramCount = 1
+				if paramCount == 0 {
+					paramCount = 1
+				}
 				params = paramStore[:paramCount]
 			}
 			t.screen().moveCursor(0, params[0], false, false)
 		case 'C': // Move cursor forward
-			if paramCount == 0 {
+			// an omitted distance is 1, also when it is omitted in front of a
+			// ';' (stored as 0) or given as 0 ("a parameter value of zero or
+			// one moves one position")
+			if paramCount == 0 || params[0] == 0 {
 				paramStore[0] = 1
-				paramCount = 1
+				if paramCount == 0 {
+					paramCount = 1
+				}
 				params = paramStore[:paramCount]
 			}
 			t.screen().moveCursor(params[0], 0, false, false)
 		case 'D': // Move cursor backward
-			if paramCount == 0 {
+			// an omitted distance is 1, also when it is omitted in front of a
+			// ';' (stored as 0) or given as 0 ("a parameter value of zero or
+			// one moves one position")
+			if paramCount == 0 || params[0] == 0 {
 				paramStore[0] = 1
-				paramCount = 1
+				if paramCount == 0 {
+					paramCount = 1
+				}
 				params = paramStore[:paramCount]
 			}
 			t.screen().moveCursor(-params[0], 0, false, false)
